@@ -236,6 +236,16 @@ def judge_str(out, case, st, k, ci):
         out.fail("read-access-changed-section|%s" % kc, "after in/[]/getattr: %r; %s" % (st.show(), ctx))
         return
 
+    # --- the FIRST match, also after an earlier item has been renamed to the key between two lookups
+    if m is not None and m >= 1 and k.strip():
+        st = fresh(case)
+        attempt(st.s.__getitem__, k)  # a lookup before the rename (anything remembered from it is stale afterwards)
+        st.items[0].mnemonic = k
+        for how, g2 in (("getitem", attempt(st.s.__getitem__, k)), ("get", attempt(st.s.get, k))):
+            if is_raised(g2) or g2 is not st.items[0]:
+                out.fail("lookup-after-rename-not-first-match|%s" % how, "after a lookup of %r and `items[0].mnemonic = %r`, s.%s(%r) is %r, "
+                         "expected item 0; %s" % (k, k, how, k, g2, ctx))
+
     # --- get() without add
     st = fresh(case)
     r = attempt(st.s.get, k)
